@@ -5,7 +5,7 @@
 (b) enumerated near-valid inputs through the real compiler under catch_unwind + watchdog: every single-token deletion, duplication
     and replacement of a set of base programs, out-of-range literals, division by constant zero in every constant position, void
     values, undeclared / prototype-only names, unbalanced directives, self-referential macros, deep nesting, non-UTF-8, recursion."""
-import re, itertools, collections, time, hashlib
+import os, re, itertools, collections, time, hashlib
 import common
 import families, families2
 
@@ -30,6 +30,11 @@ def base_programs():
     return B
 
 
+def incdir():
+    import check_c06
+    d = os.path.join(common.CACHE, 'c06_inc'); check_c06.write_headers(d); return d
+
+
 def scheme_specials():
     """programs whose handling depends on the bankswitching scheme (selected by the platform macro): name -> (args, source)"""
     S = collections.OrderedDict()
@@ -44,6 +49,21 @@ def scheme_specials():
         S['scheme/%s/bank-huge' % sn] = (a, 'char v;\nbank99999 void f() { v++; }\nvoid main() { f(); }\n')
         S['scheme/%s/superchip' % sn] = (a, 'superchip char s[4];\nsuperchip short w;\nchar v;\nvoid main() { s[X] = v; w = w + 1; v = s[Y]; s[1]++; }\n')
         S['scheme/%s/bank-ram' % sn] = (a, 'bank1 char s[4];\nchar v;\nvoid main() { s[X] = v; v = s[Y]; s[1]++; }\n')
+    return S
+
+
+def include_specials(d):
+    """inputs that include real files (C and assembler) from directory d: name -> (args, source)"""
+    S = collections.OrderedDict()
+    a = ['-I', d]
+    tails = [('warn-last', 'char c;\nvoid main() { c = 300; }'), ('warn-last-nl', 'char c;\nvoid main() { c = 300; }\n'), ('err-last', 'char c;\nvoid main() { c = c * c; }'), ('err-last-nl', 'char c;\nvoid main() { c = c * c; }\n'),
+             ('undeclared-last', 'void main() { nope = 1; }'), ('syntax-last', 'char c;\nvoid main() { c = ; }'), ('cpp-last', 'void main() {}\n#if NOPE'), ('ok', 'char c;\nvoid main() { c = 1; }\n'),
+             ('warn-perf-last', 'char t[4]; char c;\nvoid main() { c = t[c + 1]; }')]
+    for inc in ('a_ok.inc', 'h_ok.h', 'a_ok.inc"\n#include "h_ok.h', 'h_ok.h"\n#include "a_ok.inc', 'a_ok.inc"\n#include "a_ok.inc'):
+        for tn, tail in tails:
+            S['include/%s/%s' % (inc.replace('"\n#include "', '+'), tn)] = (a + (['-W', 'all'] if 'perf' in tn else []), '#include "%s"\n%s' % (inc, tail))
+            S['include-late/%s/%s' % (inc.replace('"\n#include "', '+'), tn)] = (a, 'char z;\n#include "%s"\n%s' % (inc, tail))
+    S['include/asm-only'] = (a, '#include "a_ok.inc"'); S['include/asm-then-eof-splice'] = (a, '#include "a_ok.inc"\nchar c; \\\n')
     return S
 
 
@@ -83,6 +103,19 @@ def specials():
         S['selfmacro/' + m.replace('\n', '|')] = m + '\nchar c;\nvoid main() { c = A; c = F(1); }\n'
     S['selfmacro/double'] = '#define Q Q Q\nchar c;\nvoid main() { c = Q; }\n'; S['selfmacro/triple-args'] = '#define F(x) F(x) F(x) F(x)\nchar c;\nvoid main() { c = F(1); }\n'
     S['proto/as-value'] = 'char c;\nvoid f();\nvoid main() { c = f; }\n'; S['func/as-value'] = 'char c;\nvoid f() {}\nvoid main() { c = f; }\n'; S['proto/as-index'] = 'char t[2];\nvoid f();\nvoid main() { t[f] = 1; }\n'
+    # constructs that open a loop / switch context and leave it early, followed by a stray break / continue (same and next function)
+    opens = [('empty-switch', 'switch (a) { }'), ('default-only', 'switch (a) { default: b = 1; }'), ('empty-while', 'while (a--) ;'), ('empty-for', 'for (a = 0; a < 3; a++) ;'), ('empty-do', 'do ; while (a--);'),
+             ('switch-nested', 'switch (a) { case 1: switch (b) { } break; }'), ('while-break', 'while (a) { break; }'), ('for-return', 'for (;;) { return; }'), ('do-continue', 'do { continue; } while (a--);')]
+    for (on, o), (sn, s) in itertools.product(opens, [('break', 'break;'), ('if-break', 'if (a) break;'), ('if-break-block', 'if (a) { break; }'), ('continue', 'continue;'), ('if-continue', 'if (a) continue;'), ('else-break', 'if (a) b = 1; else break;')]):
+        S['loopstack/%s/%s' % (on, sn)] = 'char a, b;\nvoid main() { %s %s }\n' % (o, s)
+        S['loopstack-next/%s/%s' % (on, sn)] = 'char a, b;\nvoid f() { %s }\nvoid main() { f(); %s }\n' % (o, s)
+    # the macro table is kept in batches of 100: function-like macros at the batch boundary, then uses and #undef
+    for n, k in itertools.product((99, 100, 101, 150, 201), (97, 98, 99, 100, 101, 199)):
+        if k >= n: continue
+        defs = ''.join(('#define M%d(a) (a + %d)\n' % (j, j)) if j == k else ('#define M%d %d\n' % (j, j % 7)) for j in range(n))
+        S['macrobatch/%d/fn@%d/use' % (n, k)] = defs + 'char c;\nvoid main() { c = M5 + M%d + M%d(2); }\n' % (n - 1, k)
+        S['macrobatch/%d/fn@%d/undef' % (n, k)] = defs + '#undef M3\n#undef M%d\nchar c;\nvoid main() { c = M5 + M%d; }\n' % (k, n - 1 if k != n - 1 else 0)
+        S['macrobatch/%d/fn@%d/redefine' % (n, k)] = defs + '#undef M%d\n#define M%d 1\n#define MX(q) (q)\nchar c;\nvoid main() { c = MX(M%d) + M%d; }\n' % (k, k, k, n - 1 if k != n - 1 else 0)
     S['continue-in-switch-in-do'] = 'char a, b;\nvoid main() { do { switch (a) { case 1: continue; default: b = 1; } a++; } while (a < 3); }\n'
     S['break-in-switch-in-for'] = 'char a, b;\nvoid main() { for (a = 0; a < 3; a++) { switch (a) { case 1: break; default: continue; } b++; } }\n'
     S['macros150'] = ''.join('#define M%d %d\n' % (k, k) for k in range(150)) + '#undef M120\n#undef M3\nchar c;\nvoid main() { c = M5 + M149; }\n'
@@ -136,7 +169,8 @@ def run(tier):
     st['isolated'] = s10['unconfirmed_isolated'][:6]
     # (b) enumerated near-valid inputs
     reqs = [(pid, [], s) for pid, s in mutations(tier)] + [('special/' + n, ['-I', '/nonexistent'], s) for n, s in specials().items()] + \
-           [('special/' + n, ['-I', '/nonexistent'] + a, s) for n, (a, s) in scheme_specials().items()]
+           [('special/' + n, ['-I', '/nonexistent'] + a, s) for n, (a, s) in scheme_specials().items()] + \
+           [('special/' + n, a, s) for n, (a, s) in include_specials(incdir()).items()]
     # listing option: statements on the last line, with and without a final newline, one-line programs
     for n, s in base_programs().items():
         one = ' '.join(l for l in s.split('\n') if not l.startswith('#'))
